@@ -313,4 +313,9 @@ EXPLANATION = (
     'and multicast arguments; unicast reply id/question echo; no question in multicast replies. Cache-flush bits: C01.FLUSHBIT; id 0 '
     'iff multicast: C14.TC. Not decided: traces over all queries and record ages [X].'
 )
+EXPLANATION_ADDENDUM = (
+    ' C11.ROUTE also requires the dispatched message to be decoded from this datagram with this arrival time (the `recently multicast` tests read it).'
+)
+EXPLANATION = EXPLANATION + EXPLANATION_ADDENDUM
+
 RULES = [route, fmt]
